@@ -244,6 +244,30 @@ def check_invariants(out: Out, rec: dict) -> None:
             out.violation('collision-detected-but-accepted', {'collisions': rec['collisions'][:4]})
 
 
+def check_failed_subprojects(out: Out, m: mn.Manifest, failed: T.Sequence[dict], rec: T.Optional[dict]) -> None:
+    """Nothing that an optional subproject declared before it failed (and was disabled) may be in the manifest:
+    every such name carries the subproject's marker."""
+    for f in failed:
+        mark = f['marker']
+        out.count('monitor:failed-subproject-left-no-trace')
+        hits = []
+        for e in m.edges:
+            for p in e.all_outputs + e.all_inputs + e.validations:
+                if mark in p:
+                    hits.append(('path', p, e.all_outputs[:2], e.rule.name))
+            if not hits:
+                for k, v in e.scope.vars.items():
+                    if mark in v:
+                        hits.append(('binding ' + k, v[:120], e.all_outputs[:2], e.rule.name))
+        table = []
+        if rec:
+            table = [t[0] for t in rec.get('targets', []) if mark in t[0]] + \
+                    [t[0] for t in rec.get('tests', []) if mark in t[0]]
+        if hits or table:
+            out.violation('failed-optional-subproject-left-trace',
+                          {'subproject': f, 'manifest': hits[:6], 'n': len(hits), 'meson_tables': table[:6]})
+
+
 def reach(m: mn.Manifest, root: str) -> T.Set[int]:
     return m.reachable_edges([root])
 
@@ -442,6 +466,8 @@ def _run_case(case: dict, out: Out, root: str) -> None:
         return
     if rec is not None:
         check_stream(out, m, rec)
+    if desc is not None and desc.get('failed_subprojects'):
+        check_failed_subprojects(out, m, desc['failed_subprojects'], rec)
     if desc is not None and desc.get('targets'):
         targets, tests = desc_expectations(desc, cfg)
         check_expectations(out, m, targets, tests, 'generator-description')
@@ -641,7 +667,44 @@ def probe_unity_counts() -> T.Tuple[dict, dict]:
     return files, {'targets': [], 'tests': [], 'features': ['probe:unity-extracted-object-counts']}
 
 
+def probe_optional_subprojects() -> T.Tuple[dict, dict]:
+    """Optional subprojects disabled at every failure point x both ways of requesting them, next to an optional
+    subproject that succeeds (control: its test must be a prerequisite).  The parent must configure."""
+    files: T.Dict[str, str] = {'m.c': _MAIN}
+    lines = [_HEAD.rstrip('\n'), "py = find_program('python3')"]
+    failed = []
+    k = 0
+    for via in gen_c04.FAIL_VIAS:
+        for stage in gen_c04.FAIL_STAGES:
+            name, marker = f'opt{k}', f'FAILSP{k}'
+            if stage == 'version-mismatch' and via != 'subproject':
+                continue
+            k += 1
+            f, line = gen_c04.failing_subproject(name, marker, stage, via)
+            files.update(f)
+            lines.append(line)
+            failed.append({'name': name, 'marker': marker, 'stage': stage, 'via': via})
+    files['subprojects/optok/meson.build'] = ("project('optok', 'c', version: '1.0')\n"
+                                              "okh = executable('okhelper', 'm.c', build_by_default: false)\n"
+                                              "okl = library('oklib', 'l.c')\n"
+                                              "test('ok test', okh, depends: okl)\nbenchmark('ok bench', okh)\n")
+    files['subprojects/optok/m.c'] = _MAIN
+    files['subprojects/optok/l.c'] = 'int okl(void) { return 0; }\n'
+    lines += ["ok = subproject('optok', required: false)", "assert(ok.found())",
+              "main_exe = executable('main exe', 'm.c')", "test('main test', main_exe)"]
+    files['meson.build'] = '\n'.join(lines) + '\n'
+    t = [{'id': 'o0', 'kind': 'exe', 'name': 'okhelper', 'dir': '', 'sp': 'optok', 'default': False},
+         {'id': 'o1', 'kind': 'library', 'name': 'oklib', 'dir': '', 'sp': 'optok', 'default': True},
+         {'id': 'o2', 'kind': 'exe', 'name': 'main exe', 'dir': '', 'sp': '', 'default': True}]
+    tests = [{'name': 'ok test', 'benchmark': False, 'prereq': ['o0', 'o1'], 'sp': 'optok'},
+             {'name': 'ok bench', 'benchmark': True, 'prereq': ['o0'], 'sp': 'optok'},
+             {'name': 'main test', 'benchmark': False, 'prereq': ['o2'], 'sp': ''}]
+    return files, {'targets': t, 'tests': tests, 'features': ['probe:optional-subproject-failures'],
+                   'failed_subprojects': failed}
+
+
 PROBES: T.Dict[str, T.Callable[[], T.Tuple[dict, dict]]] = {
+    'optional-subprojects': probe_optional_subprojects,
     'same-name-prereqs': probe_same_name_prereqs,
     'unity-counts': probe_unity_counts,
     'unity-asm': probe_unity_asm,
@@ -806,6 +869,7 @@ def main() -> int:
     chk.require('collision_rejected_by:interpreter', 4 if quick else 60)
     chk.require('corpus_configured', 10 if quick else 150)
     chk.require('rsp_edges', 1)
+    chk.require('monitor:failed-subproject-left-no-trace', 10 if quick else 100)
     return chk.finish(
         rule='generated project (seeded target graph: kinds, link chains, generated sources, subdirs, subproject, '
              'tests) x configuration cell (layout, unity, default_library, rsp threshold); distinct = structural '
